@@ -575,11 +575,22 @@ def closed_checks(ck):
         ck.ob("C13.inline-read-check", s, n.ast, ("@chk", True) in ef[n.id] or has(gfs[n.id], "self.closed()", False) or has(gfs[n.id], "self._closed", False), "_start_read raises StreamClosedError (not AssertionError) when the previous read was left pending by a close")
     news = s.cfg.stmt_nodes(lambda n: n.kind == "stmt" and isinstance(n.ast, ast.Assign) and "self._read_future" in q.assigned_paths(n.ast))
     ck.floor("C13.inline-read-check", len(news), 1, "read future creation in _start_read")
+    def _fresh_future(v):
+        if isinstance(v, ast.Call) and q.call_attr(v) in ("Future", "_create_future"):
+            return True
+        if isinstance(v, ast.Name):
+            ds = [x for x in q.stores_to(s.node, v.id) if isinstance(x, (ast.Assign, ast.AnnAssign))]
+            return len(ds) == 1 and _fresh_future(getattr(ds[0], "value", None))
+        return False
+
+    aliases = {"self._read_future"}
     for n in news:
         v = n.ast.value
-        ck.ob("C13.inline-read-check", s, n.ast, isinstance(v, ast.Call) and q.call_attr(v) in ("Future", "_create_future"), "every read gets a fresh Future")
+        ck.ob("C13.inline-read-check", s, n.ast, _fresh_future(v), "every read gets a fresh Future")
+        if isinstance(v, ast.Name):
+            aliases.add(v.id)
     rets = [x for x in q.walk_body(s.node) if isinstance(x, ast.Return)]
-    ck.ob("C13.inline-read-check", s, s.node, bool(rets) and all(q.dotted(r.value) == "self._read_future" for r in rets), "_start_read returns the future it registered", construct="_start_read returns self._read_future")
+    ck.ob("C13.inline-read-check", s, s.node, bool(rets) and all(q.dotted(r.value) in aliases for r in rets), "_start_read returns the future it registered", construct="_start_read returns self._read_future")
 
 
 def error_closes(ck):
